@@ -122,6 +122,8 @@ def do_replay(args, engine, lanes, prop):
     log(f"replay status={res.get('status')} class={got} digest={res.get('digest')}")
     if res.get("status") == "violation":
         log("  " + res["violation"].get("detail", ""))
+        if res["violation"].get("stderr"):
+            log("  stderr: " + res["violation"]["stderr"])
     if res.get("status") == "harness_error":
         log("HARNESS-ERROR " + str(res.get("error")))
         return 2
